@@ -21,3 +21,16 @@ WALK3 = dict(defines_thorough=["H=3"], cbmc_flags_quick=["--unwind", "17"], cbmc
 UNITS.append(T("foreach", "h_foreach", "bst", canaries=2, functions=["p_tree_foreach"], **WALK3))
 UNITS.append(T("clear", "h_clear", "bst", canaries=2, functions=["p_tree_clear", "p_tree_free", "p_tree_get_nnodes"], **WALK3))
 UNITS.append(T("rb_clear", "h_clear", "rb", canaries=2, functions=[], cbmc_flags_quick=["--unwind", "17"], cbmc_flags_thorough=["--unwind", "34"]))
+# ---- rotation lemmas (rot.c): loop-free, every window, subtrees of any size and ghost height -> unbounded; shared by C12 (in-order
+# sequence and links preserved) and C13 (AVL: stored balance factors = real height differences after the rotation)
+def R(id, entry, defs, fn, canaries):
+    return dict(id=id, harness="../trees/rot.c", entry=entry, sources=["ptree-rb.c", "ptree-avl.c"], enforce=None, replace=[], timeout=600, defines=defs, canaries=canaries,
+                cbmc_flags=["--object-bits", "10"], functions=[fn])
+ROT_UNITS = [
+    R("rot_rb_left", "h_single", ["ROT_RB"], "pp_tree_rb_rotate_left", 4),
+    R("rot_rb_right", "h_single", ["ROT_RB", "MIRROR"], "pp_tree_rb_rotate_right", 4),
+    R("rot_avl_left", "h_single", [], "pp_tree_avl_rotate_left", 6),
+    R("rot_avl_right", "h_single", ["MIRROR"], "pp_tree_avl_rotate_right", 6),
+    R("rot_avl_left_right", "h_double", [], "pp_tree_avl_rotate_left_right", 5),
+    R("rot_avl_right_left", "h_double", ["MIRROR"], "pp_tree_avl_rotate_right_left", 5),
+]
